@@ -302,6 +302,12 @@ func genC05(r *Rand, tier string) []Case {
 		}
 		var tags []string
 		q := selectStar("t", nil)
+		if r.Chance(12) && len(t.rows) >= 2 {
+			// a sort key path that runs through a scalar on some row: a type error that must surface
+			t.rows[r.Intn(len(t.rows))].(map[string]any)["o"] = float64(3)
+			tags = append(tags, "order-key-type-error")
+			q.Order = append(q.Order, OrderKey{Path: []string{"o", "p", "q"}, Asc: r.Bool()})
+		}
 		nk := 1 + r.Intn(3)
 		keys := [][]string{{"n1"}, {"n2"}, {"s1"}, {"s2"}, {"k"}, {"id"}, {"o", "p", "q"}}
 		for j := 0; j < nk; j++ {
